@@ -653,7 +653,10 @@ func handleInputStream(s *Session, handler Handler) (err error) {
 		TokenWriter: w,
 		id:          id,
 	}
-	if err := handler.HandleXMPP(rw, &start); err != nil {
+	// An io.EOF returned by the handler only means that the handler reached the
+	// end of its element (or chose to report it); it is not the end of the
+	// stream, which only a read from the stream itself can report.
+	if err := handler.HandleXMPP(rw, &start); err != nil && err != io.EOF {
 		return err
 	}
 
